@@ -139,6 +139,13 @@ class Runner:
             m = L.pending(w.file_list(), w.rev_list(), "linear", None, True, w.dirty())
             gate_open = True
             ctx.count("status:first-run-gate-not-applied")
+        last = sorted(w.revs)[-1] if w.revs else None
+        if m["kind"] == "nopending" and last and L.World.is_partial(w.revs[last]) and last not in w.files:
+            # corner of the model (appendix A says "missing migration"; with no migration file left in the directory
+            # there is also nothing to run): status may report either
+            if rc != 0 and "not found" in se:
+                ctx.count("status:partial-file-missing-in-empty-directory")
+                return {"kind": "missing-empty-dir"}
         if m["kind"] == "missing":
             if cls != "missing" and not (rc != 0 and "not found" in se):
                 self.viol("status|class|model=missing|real=" + cls, "model: partially applied revision without its file (missing migration); `migrate status` rc=%d: %s" % (rc, (se or so).strip()[:300]))
@@ -156,7 +163,6 @@ class Runner:
                "count": st.get("Count", 0), "total": st.get("Total", 0)}
         self.trace[-1]["status"] = obs
         det = {"status": obs, "model": m}
-        last = sorted(w.revs)[-1] if w.revs else None
         if pend != m["pending"] or ooo != m["ooo"]:
             key = "status|pending-differs"
             if last and w.revs[last].get("rp") and pend == [last] + m["pending"]:
@@ -338,7 +344,7 @@ def main():
         print("VIOLATED" if ctx.violations() else "held")
         ctx.finish("replay")
         sys.exit(1 if ctx.violations() else 0)
-    nseq = ctx.pick(40, 400)
+    nseq = ctx.pick(80, 600)
     nops = ctx.pick(8, 10)
     cases = []
     for i in range(nseq):
